@@ -115,8 +115,26 @@ def gen_leaf(rng, what, inq=None, kind=None):
     raise ValueError(kind)
 
 
+def deep_wrap(rng, rule):
+    """the rule under 10-45 levels of Not / single-operand And / Or (an even number of Nots: same meaning)"""
+    n = rng.randint(10, 45)
+    nots = 0
+    for i in range(n):
+        c = rng.random()
+        if c < 0.5:
+            rule = ('not', rule)
+            nots += 1
+        else:
+            rule = (pick(rng, ['and', 'or']), [rule])
+    if nots % 2:
+        rule = ('not', rule)
+    return rule
+
+
 def gen_rule(rng, what, inq=None, depth=2, kinds=None):
     r = rng.random()
+    if depth >= 1 and kinds is None and rng.random() < 0.02:
+        return deep_wrap(rng, gen_leaf(rng, what, inq))
     if depth <= 0 or r < 0.6:
         return gen_leaf(rng, what, inq, kind=pick(rng, kinds) if kinds else None)
     if r < 0.75:
